@@ -38,6 +38,9 @@ def unhexU16 (s : String) : Option UInt16 := do
 def kv (toks : List String) (k : String) : Option String :=
   toks.findSome? fun t => if t.startsWith (k ++ "=") then some (t.drop (k.length + 1)).toString else none
 
+def dashList (v : String) (sep : String) : List String :=
+  if v = "" || v = "-" then [] else v.splitOn sep
+
 def splitOn (s : String) (sep : String) : List String := (s.splitOn sep)
 
 def parseExt (t : String) : Option Ext := do
